@@ -374,16 +374,19 @@ End C13.
 
 (** * The BLE stack's link-layer manager (whad/ble/stack/llm/__init__.py): encryption start
     procedure, central side (start_encryption, on_enc_rsp, on_start_enc_req) and peripheral side
-    (on_enc_req). Observable: the arguments of [set_encryption] handed to the PHY.
-    Transcribed as written: ONE [self.__llcm] attribute shared by all connection handles. *)
+    (on_enc_req), connection registration and on_disconnect. Observable: the arguments of
+    [set_encryption] handed to the PHY. The crypto manager is kept PER CONNECTION HANDLE
+    ([self.__llcm[conn_handle] = ...], read with [.get(conn_handle)], popped on disconnect).
+    [shared = true] is the behaviour before the repair (one attribute for all handles, never
+    dropped), kept only for [stack_shared_manager_refuted]. *)
 
 (** per-connection entries of LinkLayerState.connections used by the procedure *)
 Record cstate := { ckey : option bytes; cskd : option N; civ : option N; crand : option N; cediv : option N }.
 
 Definition cstate0 : cstate := {| ckey := None; cskd := None; civ := None; crand := None; cediv := None |}.
 
-(** connections (dict by handle) and the single crypto manager (LTK and material it was built from) *)
-Record lls := { conns : list (N * cstate); llcm : option (bytes * material) }.
+(** connections (dict by handle) and the crypto managers (dict by handle: LTK and material) *)
+Record lls := { conns : list (N * cstate); llcm : list (N * (bytes * material)) }.
 
 Fixpoint cfind (h : N) (l : list (N * cstate)) : option cstate :=
   match l with
@@ -398,6 +401,32 @@ Fixpoint cupd (h : N) (f : cstate -> cstate) (l : list (N * cstate)) : list (N *
   | (h', c) :: r => if N.eqb h h' then (h', f c) :: r else (h', c) :: cupd h f r
   end.
 
+(** [self.connections[conn_handle] = {...}] (register_connection) and [del self.connections[h]] *)
+Fixpoint cset (h : N) (c : cstate) (l : list (N * cstate)) : list (N * cstate) :=
+  match l with
+  | [] => [(h, c)]
+  | (h', c') :: r => if N.eqb h h' then (h', c) :: r else (h', c') :: cset h c r
+  end.
+
+Definition cdel (h : N) (l : list (N * cstate)) : list (N * cstate) :=
+  filter (fun x => negb (N.eqb h (fst x))) l.
+
+(** the managers dict *)
+Fixpoint mfind (h : N) (l : list (N * (bytes * material))) : option (bytes * material) :=
+  match l with
+  | [] => None
+  | (h', m) :: r => if N.eqb h h' then Some m else mfind h r
+  end.
+
+Fixpoint mset (h : N) (m : bytes * material) (l : list (N * (bytes * material))) : list (N * (bytes * material)) :=
+  match l with
+  | [] => [(h, m)]
+  | (h', m') :: r => if N.eqb h h' then (h', m) :: r else (h', m') :: mset h m r
+  end.
+
+Definition mdel (h : N) (l : list (N * (bytes * material))) : list (N * (bytes * material)) :=
+  filter (fun x => negb (N.eqb h (fst x))) l.
+
 Definition set_key (k : option bytes) (c : cstate) : cstate :=
   {| ckey := k; cskd := cskd c; civ := civ c; crand := crand c; cediv := cediv c |}.
 Definition set_proc (skd iv rand ediv : N) (c : cstate) : cstate :=
@@ -408,7 +437,14 @@ Inductive levent :=
 | EStart (h rand ediv skd iv : N)                 (* start_encryption; skd, iv = the two randint draws *)
 | EEncRsp (h skds ivs : N)                        (* LL_ENC_RSP received *)
 | EStartEncReq (h : N)                            (* LL_START_ENC_REQ received *)
-| EEncReq (h rand ediv skdm ivm skd iv : N).      (* LL_ENC_REQ received; skd, iv = the randint draws *)
+| EEncReq (h rand ediv skdm ivm skd iv : N)       (* LL_ENC_REQ received; skd, iv = the randint draws *)
+| EConn (h : N)                                   (* state.register_connection (new connection, maybe a reused handle) *)
+| EDisc (h : N).                                  (* on_disconnect *)
+
+Definition ev_handle (ev : levent) : N :=
+  match ev with
+  | EReg h _ | EStart h _ _ _ _ | EEncRsp h _ _ | EStartEncReq h | EEncReq h _ _ _ _ _ _ | EConn h | EDisc h => h
+  end.
 
 Inductive lout :=
 | LNone                                           (* nothing handed to the PHY controller *)
@@ -418,12 +454,18 @@ Inductive lout :=
 
 Section Stack.
   Variable E : bytes -> bytes -> bytes.
+  Variable shared : bool.       (* false: the code as it is; true: the single attribute of before *)
+
+  (** key under which the manager of handle [h] is kept *)
+  Definition mkey (h : N) : N := if shared then 0%N else h.
 
   Definition with_conns (st : lls) (c : list (N * cstate)) : lls := {| conns := c; llcm := llcm st |}.
 
   Definition ll_step (st : lls) (ev : levent) : lls * lout :=
     match ev with
     | EReg h k => (with_conns st (cupd h (set_key k) (conns st)), LNone)
+    | EConn h => (with_conns st (cset h cstate0 (conns st)), LNone)
+    | EDisc h => ({| conns := cdel h (conns st); llcm := if shared then llcm st else mdel h (llcm st) |}, LNone)
     | EStart h rand ediv skd iv =>
       match cfind h (conns st) with
       | Some c =>
@@ -444,7 +486,7 @@ Section Stack.
           | Some skdm, Some ivm =>
             let mat := {| m_skd := skdm; m_iv := ivm; s_skd := skds; s_iv := ivs |} in
             match mk_manager E k mat with
-            | Ok _ => ({| conns := conns st; llcm := Some (k, mat) |}, LNone)
+            | Ok _ => ({| conns := conns st; llcm := mset (mkey h) (k, mat) (llcm st) |}, LNone)
             | Raise e => (st, LRaise e)
             end
           | _, _ => (st, LRaise StructError)        (* pack(">Q", None) *)
@@ -455,8 +497,8 @@ Section Stack.
       match cfind h (conns st) with
       | None => (st, LNone)
       | Some c =>
-        match llcm st with
-        | None => (st, LRaise AttributeError)      (* self.__llcm is None *)
+        match mfind (mkey h) (llcm st) with
+        | None => (st, LRaise AttributeError)      (* self.__llcm.get(conn_handle) is None *)
         | Some (ltk, mat) =>
           (st, LSetEnc h (e_fn E ltk (session_skd mat)) (session_iv mat) ltk (crand c) (cediv c))
         end
@@ -471,7 +513,7 @@ Section Stack.
           let cs := cupd h (set_proc skd iv rand ediv) (conns st) in
           let mat := {| m_skd := skdm; m_iv := ivm; s_skd := skd; s_iv := iv |} in
           match mk_manager E k mat with
-          | Ok _ => ({| conns := cs; llcm := Some (k, mat) |},
+          | Ok _ => ({| conns := cs; llcm := mset (mkey h) (k, mat) (llcm st) |},
                      LSetEnc h (e_fn E k (session_skd mat)) (session_iv mat) k (Some rand) (Some ediv))
           | Raise e => (with_conns st cs, LRaise e)
           end
@@ -485,6 +527,17 @@ Section Stack.
     | ev :: r => let '(st1, o) := ll_step st ev in
                  let '(st2, os) := ll_run st1 r in (st2, o :: os)
     end.
+
+  (** the outputs of the events of handle [h] during a run of ALL events *)
+  Fixpoint outs_of (h : N) (st : lls) (evs : list levent) : list lout :=
+    match evs with
+    | [] => []
+    | ev :: r => let '(st1, o) := ll_step st ev in
+                 if N.eqb (ev_handle ev) h then o :: outs_of h st1 r else outs_of h st1 r
+    end.
+
+  Definition on_handle (h : N) (evs : list levent) : list levent :=
+    filter (fun ev => N.eqb (ev_handle ev) h) evs.
 
   Definition is_set_enc (o : lout) : bool := match o with LSetEnc _ _ _ _ _ _ => true | _ => false end.
   Definition set_enc_only (os : list lout) : list lout := filter is_set_enc os.
@@ -524,14 +577,14 @@ Section Stack.
      EStartEncReq (p_h p); EStartEncReq (p_h q)].
 End Stack.
 
-(** "every run of the procedure hands the PHY its own material", also when two procedures on
-    different handles interleave — refuted by the faithful model (known finding) *)
-Definition stack_interleaved_statement : Prop :=
+(** "every run of the procedure hands the PHY its own material" for two procedures on different
+    handles whose PDUs interleave, as a statement about a link layer with the given [shared] flag *)
+Definition stack_interleaved_statement_for (shared : bool) : Prop :=
   forall E, (forall k b, length (E k b) = 16) ->
   forall (st : lls) (p q : proc),
     proc_wfb p = true -> proc_wfb q = true -> registered (p_h p) st = true -> registered (p_h q) st = true ->
     p_h p <> p_h q ->
-    set_enc_only (snd (ll_run E st (interleaved p q))) = [proc_expected E p; proc_expected E q].
+    set_enc_only (snd (ll_run E shared st (interleaved p q))) = [proc_expected E p; proc_expected E q].
 
 (** * The unconditional tamper statement (refuted in Proofs.v) and non-vacuity data *)
 Definition protected_view (c : bytes) : N * bytes := (N.land (hd 0%N c) header_mask, skipn 2 c).
@@ -691,5 +744,5 @@ Definition stack_case := (list N * list levent * list lout)%type.
 
 Definition check_stack (c : stack_case) : bool :=
   let '(hs, evs, observed) := c in
-  let st0 := {| conns := map (fun h => (h, cstate0)) hs; llcm := None |} in
-  louts_eqb (snd (ll_run aes128_enc st0 evs)) observed.
+  let st0 := {| conns := map (fun h => (h, cstate0)) hs; llcm := [] |} in
+  louts_eqb (snd (ll_run aes128_enc false st0 evs)) observed.
